@@ -208,6 +208,8 @@ impl GenerationPass for AvailableValuePass {
                 rule_perform_math_ops(&node.node(), &mut out_reg_n, &node.reg_values_in());
                 rule_push_value_to_csr_memory(&node.node(), &mut out_memory_n, &out_reg_n);
                 rule_known_values_to_stack(&mut out_memory_n, &node.reg_values_in());
+                // Writes to the zero register are discarded by the machine
+                out_reg_n -= Register::const_zero_set().iter();
                 // TODO stack reset?
 
                 // If either of the outs changed, replace the old outs with the new outs
